@@ -81,6 +81,12 @@ CLAIMED["C18"] = ("Theorems C18_* (coq/Properties/C18.v) over a cost model of ex
                   "execute plus one iteration touch each leaf occurrence at most once; results of eager operations never "
                   "re-iterate upstream. Counting leaf payloads validate the cost model (as an upper bound) on the real engine. "
                   "Partial by nature: generator/iterator semantics of CPython is an oracle.", "DESIGN.md §4 C18")
+CLAIMED["C09"] = ("Theorems C09_* (coq/Properties/C09.v), decided by vm_compute over finite tables regenerated from the package source on "
+                  "every run: every class the factories put into trees is hashable under CPython's dataclass rules; every write "
+                  "site of the package writes to an object created in the same call, to self in a constructor, to the write-once "
+                  "payload slot or to the name counter. Random interleaved histories (factory calls, compile, process+execute, "
+                  "diagnostics, rebuild) re-fingerprint every earlier relation and leaf payload cell after each event. Partial by "
+                  "nature: aliasing outside the enumerated sites is not exhibited by the model.", "DESIGN.md §4 C09")
 NOT_APPLICABLE = {}
 
 
